@@ -1070,6 +1070,10 @@ func (e *env) execMutation0(ac *actor, st Step) (outcome, *hx.Failure) {
 	case "create":
 		if st.R != 2 {
 			q := fmt.Sprintf(`mutation { create_Users(input: {name: "d%d", age: %d, tag: %q}) { _docID name age tag } }`, st.D, init.Age, tagPool[init.Tag])
+			if st.Alt {
+				// the list form of the input (the batch-create path)
+				q = fmt.Sprintf(`mutation { create_Users(input: [{name: "d%d", age: %d, tag: %q}]) { _docID name age tag } }`, st.D, init.Age, tagPool[init.Tag])
+			}
 			return classifyGQL(e.gql(ac, st.R, q), "create_Users")
 		}
 		col, err := e.col(ac)
@@ -1079,6 +1083,12 @@ func (e *env) execMutation0(ac *actor, st Step) (outcome, *hx.Failure) {
 		doc, err := client.NewDocFromJSON([]byte(docJSON(st.D, init)), col.Definition())
 		if err != nil {
 			hx.Harnessf("doc: %v", err)
+		}
+		if st.Alt {
+			if err := col.CreateMany(e.callCtx(ac), []*client.Document{doc}); err != nil {
+				return outcome{kind: "error", err: err.Error()}, nil
+			}
+			return outcome{kind: "applied"}, nil
 		}
 		if err := col.Create(e.callCtx(ac), doc); err != nil {
 			return outcome{kind: "error", err: err.Error()}, nil
@@ -1092,6 +1102,10 @@ func (e *env) execMutation0(ac *actor, st Step) (outcome, *hx.Failure) {
 				val = strconv.Quote(tagPool[st.V])
 			}
 			q := fmt.Sprintf(`mutation { update_Users(docID: %q, input: {%s: %s}) { _docID name age tag } }`, id, st.F, val)
+			if st.Alt {
+				// the same document selected by a filter (the filtered-update path)
+				q = fmt.Sprintf(`mutation { update_Users(filter: {_docID: {_eq: %q}}, input: {%s: %s}) { _docID name age tag } }`, id, st.F, val)
+			}
 			return classifyGQL(e.gql(ac, st.R, q), "update_Users")
 		}
 		col, err := e.col(ac)
@@ -1117,6 +1131,12 @@ func (e *env) execMutation0(ac *actor, st Step) (outcome, *hx.Failure) {
 		if err != nil {
 			hx.Harnessf("doc.Set: %v", err)
 		}
+		if st.Alt {
+			if err := col.Save(e.callCtx(ac), doc); err != nil {
+				return outcome{kind: "error", err: err.Error()}, nil
+			}
+			return outcome{kind: "applied"}, nil
+		}
 		if err := col.Update(e.callCtx(ac), doc); err != nil {
 			return outcome{kind: "error", err: err.Error()}, nil
 		}
@@ -1125,6 +1145,9 @@ func (e *env) execMutation0(ac *actor, st Step) (outcome, *hx.Failure) {
 	case "delete":
 		if st.R != 2 {
 			q := fmt.Sprintf(`mutation { delete_Users(docID: %q) { _docID } }`, id)
+			if st.Alt {
+				q = fmt.Sprintf(`mutation { delete_Users(filter: {_docID: {_eq: %q}}) { _docID } }`, id)
+			}
 			return classifyGQL(e.gql(ac, st.R, q), "delete_Users")
 		}
 		col, err := e.col(ac)
@@ -1134,6 +1157,16 @@ func (e *env) execMutation0(ac *actor, st Step) (outcome, *hx.Failure) {
 		docID, err := client.NewDocIDFromString(id)
 		if err != nil {
 			hx.Harnessf("docID: %v", err)
+		}
+		if st.Alt {
+			res, err := col.DeleteWithFilter(e.callCtx(ac), fmt.Sprintf(`{_docID: {_eq: %q}}`, id))
+			if err != nil {
+				return outcome{kind: "error", err: err.Error()}, nil
+			}
+			if res == nil || res.Count == 0 {
+				return outcome{kind: "noop"}, nil
+			}
+			return outcome{kind: "applied"}, nil
 		}
 		ok, err := col.Delete(e.callCtx(ac), docID)
 		if err != nil {
